@@ -387,6 +387,7 @@ def actMoveSrc (o : Opts) : Node → Node → Bytes → Outcome (Node × Node) :
     | .panic => .panic
     | .err e => .err e
     | .ok val =>
+      let val := if key = [] then (deepCopy o.esc val).1 else val
       match conRemove o con key with
       | .ok con' => .ok (con', val)
       | .err e => .err e
@@ -411,7 +412,7 @@ theorem actMoveSrc_ref {o : Opts} {e : Bool} {key : Bytes} (hkey : key ≠ []) :
     rw [hrel] at hget
     obtain ⟨n, hn, hn1, hn2⟩ := hget
     obtain ⟨pc', h1, h2, h3, h4⟩ := hrem
-    exact ⟨pc', n, by simp [actMoveSrc, hn, h1], h2, h3, h4, hn1, hn2⟩
+    exact ⟨pc', n, by simp [actMoveSrc, hn, h1, hkey], h2, h3, h4, hn1, hn2⟩
 
 /-- what `move` does with the result of its first walk -/
 def moveK (o : Opts) (r : Root) (op : Op) : Walk Node → Outcome Root
